@@ -85,7 +85,7 @@ Proof.
         destruct (managed r0).
         -- unfold release. cbn [set_inflight pool cfgN]. destruct (_ <? _).
            ++ destruct (on_frame _ _ _ _ _ _). exact Hin'.
-           ++ exact Hin'.
+           ++ destruct (on_frame _ _ _ _ _ _). exact Hin'.
         -- destruct (on_frame _ _ _ _ _ _). exact Hin'.
       * destruct (on_frame _ _ _ _ _ _) as [r' o]. cbn [fst set_inflight inflight].
         apply In_update_key_other; auto.
